@@ -17,6 +17,7 @@ JudgeWrite(e) ==
                /\ Check(e, "OtherFormatValuesKept", OtherFormatValuesKept(e))
                /\ Check(e, "AllelesPreserved", AllelesPreserved(e))
                /\ Check(e, "OnlySupportedHetPhased", OnlySupportedHetPhased(e))
+               /\ Check(e, "PhasedOnlyWhereSupported", PhasedOnlyWhereSupported(e))
           ELSE TRUE
 Judge(e) ==
     CASE e.ev = "PhaseWrite" -> JudgeWrite(e)
